@@ -38,7 +38,7 @@ def classify(pid, d):
 
 CLASSIFIERS = {}
 
-ALL_EXTRACTORS = ["Basic", "Message", "Conversion", "Session", "Service", "SigGrammar", "Value", "Reader", "Encoding", "GenReaders", "Endpoint", "Stream"]
+ALL_EXTRACTORS = ["Basic", "Message", "Conversion", "Session", "Service", "SigGrammar", "Value", "Reader", "Encoding", "GenReaders", "Endpoint", "Stream", "Client"]
 
 
 def lean_string_list(path, name):
@@ -218,6 +218,27 @@ PROPS = {
             "(net.Conn, tls.Conn, os.File and net.Pipe serialise writers with an internal lock)",
             "goroutine scheduling is the Go runtime's: the harness samples schedules, the theorem covers all interleavings of whole Write calls",
             "handler queues have room (capacity >= number of messages): a full queue drops by design (C17)",
+        ],
+        "timeout": {"quick": 600, "thorough": 3000},
+    },
+    "C11": {
+        "level": "proof",
+        "extract": ["Client", "Endpoint"],
+        "rule": "the real bus client (Call, Subscribe, OnDisconnect) on an endpoint over a harness-implemented net.Stream "
+                "whose every Write blocks until the script lets it succeed or fail and whose reader gets exactly the bytes or "
+                "the error the script feeds; random scripts (6-28 steps: calls, early replies to calls still inside Send, "
+                "replies, cancels, subscriptions, events, error events, disconnect callbacks) with the loss (EOF or error "
+                "after 0-35 bytes of a frame, local Close, failing Write followed by EOF) at a random position; "
+                "systematically every byte offset of the frame in flight x EOF/error; every call's outcome, every "
+                "subscription's events and closed state and every callback count are compared with the client machine; "
+                "storms: 1-16 concurrent calls over net.Pipe, peer closes / cuts a reply in the middle / local close at a "
+                "random point: all calls return within 10 s, none gets another call's reply, a later call fails, "
+                "subscription closed, callback once",
+        "assumptions": [
+            "faults are persistent: once a Read or Write of the stream failed or the stream is closed, every later operation on it fails",
+            "a blocked Write returns when the transport reports the loss (the harness lets every Write return)",
+            "wall-clock bounds are observed (10 s ceiling per storm, 3 s per scripted step), not proved",
+            "a subscriber that stops reading its events channel is outside the statement",
         ],
         "timeout": {"quick": 600, "thorough": 3000},
     },
